@@ -518,3 +518,34 @@ def load_debug_parts(manifest):
         raise ExtractionError("load(): debug-table reader differs from the structure the round-trip lemma was written for:\n found %s\n expected %s" % (skeleton, want))
     manifest.append({"unit": "Processor::load debug reader structure", "text": skeleton})
     return "static void dbg_load_symbol_body(void) " + loop_body + "\n"
+
+
+STR_READ_LOOP_CONTRACT = (
+    "\n    __CPROVER_assigns(file_pos, c, s_len, __CPROVER_object_whole(s_buf))\n"
+    "    __CPROVER_loop_invariant(file_pos >= 1 && file_pos - 1 <= str_nul_at && s_len < STR_MAX)\n"
+    "    __CPROVER_loop_invariant(s_len == file_pos - __CPROVER_loop_entry(file_pos))\n"
+    "    __CPROVER_loop_invariant(c == FILE_BYTE(file_pos - 1))\n"
+    "    __CPROVER_loop_invariant(str_k >= s_len || s_buf[str_k] == FILE_BYTE(__CPROVER_loop_entry(file_pos) - 1 + str_k))\n")
+
+STR_READ_RX = (r"for \(size_t i=0; i<numStrings; i\+\+\) (\{\s*char c = file\.get\(\);\s*std::string s;\s*while \(c != '\\0'\) \{\s*s \+= c;"
+               r"\s*c = file\.get\(\);\s*\}\s*strings\.push_back\(s\);\s*\})")
+
+
+def string_codec(manifest):
+    """the NUL-terminated name encoding: body of load()'s string loop (hexsim.hpp) and the writer statement of
+    emitDebugInfo's string loop (hexasm.hpp), as C.  std::string s -> s_buf/s_len (append only), the ifstream -> FILE_GET()
+    over the bytes the writer produced, strings.push_back(s) -> STR_PUSH(), ostream::write(p, n) -> OUT_WRITE(p, n)."""
+    sim = Source("hexsim.hpp", manifest)
+    b = sim.span(STR_READ_RX, "Processor::load string loop body", 1)
+    b = rewrite(b, [
+        (r"file\.get\(\)", "FILE_GET()", 2, 2),
+        (r"std::string s;", "s_len = 0; /* std::string s */", 1, 1),
+        (r"while \(c != '\\0'\) \{", lambda m: "while (c != '\\0')" + STR_READ_LOOP_CONTRACT + "    {", 1, 1),
+        (r"s \+= c;", "s_buf[s_len++] = c;", 1, 1),
+        (r"strings\.push_back\(s\);", "STR_PUSH();", 1, 1),
+    ], "load string loop body", manifest)
+    leftover_check(b, "load string loop body")
+    asm = Source("hexasm.hpp", manifest)
+    w = asm.span(r"\n\s*(outputFile\.write\(name\.c_str\(\), name\.length\(\)\+1\);)", "emitDebugInfo name write", 1)
+    w = rewrite(w, [(r"outputFile\.write\(name\.c_str\(\), name\.length\(\)\+1\);", "OUT_WRITE(name_c_str, name_length+1);", 1, 1)], "emitDebugInfo name write", manifest)
+    return "static void str_read_body(void) " + b + "\nstatic void str_write_stmt(void) { " + w + " }\n"
